@@ -200,6 +200,61 @@ def nxRead (cf : Char → Char) (attached : Option (List Str)) (d : XDoc) : Opti
     | none => none
     | some ts => some ⟨ns, [], ts⟩
 
+/-! ### attribute values: `_protect_attr` = `xml.sax.saxutils.quoteattr`, and the XML parser's reading of a quoted value -/
+
+/-- `escape(data, {'\n': '&#10;', '\r': '&#13;', '\t': '&#9;'})`, one character -/
+def xmlEsc (c : Char) : Str :=
+  if c == '&' then ['&', 'a', 'm', 'p', ';']
+  else if c == '<' then ['&', 'l', 't', ';']
+  else if c == '>' then ['&', 'g', 't', ';']
+  else if c == '\n' then ['&', '#', '1', '0', ';']
+  else if c == '\r' then ['&', '#', '1', '3', ';']
+  else if c == '\t' then ['&', '#', '9', ';']
+  else [c]
+
+def quotEsc (c : Char) : Str := if c == '"' then ['&', 'q', 'u', 'o', 't', ';'] else [c]
+
+/-- `quoteattr`: escape, then delimit by `"` — or by `'` when the value has a `"` and no `'`; with both, `"` becomes `&quot;` -/
+def quoteAttr (s : Str) : Str :=
+  let d := s.flatMap xmlEsc
+  if d.contains '"' then
+    (if d.contains '\'' then '"' :: (d.flatMap quotEsc ++ ['"']) else '\'' :: (d ++ ['\'']))
+  else '"' :: (d ++ ['"'])
+
+/-- a reference name between `&` and `;`: the five predefined entities and decimal character references -/
+def xmlEntity (e : Str) : Option Char :=
+  if e == ['a', 'm', 'p'] then some '&'
+  else if e == ['l', 't'] then some '<'
+  else if e == ['g', 't'] then some '>'
+  else if e == ['q', 'u', 'o', 't'] then some '"'
+  else if e == ['a', 'p', 'o', 's'] then some '\''
+  else match e with
+    | '#' :: ds => if isDigits ds then some (Char.ofNat (natOf ds)) else none
+    | _ => none
+
+/-- the value of an attribute as an XML parser reports it, positioned after the opening quote `q`: up to the closing
+    quote; references resolved; a literal tab / LF / CR is normalised to a blank; a literal `<` is not well formed.
+    `ent` = the reference name being read.  Result: (value, text after the closing quote). -/
+def decAttr (q : Char) : Str → Option Str → Str → Option (Str × Str)
+  | [], _, _ => none
+  | c :: cs, none, acc =>
+    if c == q then some (acc, cs)
+    else if c == '&' then decAttr q cs (some []) acc
+    else if c == '<' then none
+    else if c == '\t' || c == '\n' || c == '\r' then decAttr q cs none (acc ++ [' '])
+    else decAttr q cs none (acc ++ [c])
+  | c :: cs, some e, acc =>
+    if c == ';' then
+      match xmlEntity e with
+      | some ch => decAttr q cs none (acc ++ [ch])
+      | none => none
+    else decAttr q cs (some (e ++ [c])) acc
+
+/-- `name=<here>…`: a quoted attribute value -/
+def parseAttr : Str → Option (Str × Str)
+  | c :: cs => if c == '"' || c == '\'' then decAttr c cs none [] else none
+  | [] => none
+
 /-! ### rendering for the protocol -/
 
 def natO : Option Nat → String
